@@ -110,9 +110,7 @@ def run(ctx):
         ctx.case((kind, str(desc['plus']), str(desc['minus']), str(R.tolist()), scale, str(off.tolist()), pts.tobytes().hex()[:32]),
                  nontrivial=kind != 'box' or not np.array_equal(np.abs(R), np.eye(3)), sample=desc if ci < 2 else None)
         ctx.count('solid:' + kind)
-        # ---- IN / OUT pruning of neurons against this volume
-        if ci % 3 == 0:
-            prune(ctx, navis, rng, vol, world, desc)
+        follow[-1][2]['vol'] = vol; follow[-1][2]['world'] = world; follow[-1][2]['do_prune'] = (ci % 3 == 0)
     out = coqio.eval_terms('C18', ['model.Volume'], exprs, shard=60)
     for (kind, desc, e), r in zip(follow, out):
         truth = [bool(v) for v in r]
@@ -126,6 +124,16 @@ def run(ctx):
                 bad = [i for i in range(len(truth)) if got[i] != truth[i]]
                 ctx.violation('in_volume classifies a point on the wrong side of the surface', d,
                               dict(points_in_solid_frame=e['pts'][bad][:5].tolist(), inside_truth=[truth[i] for i in bad[:5]]))
+    # ---- IN / OUT pruning of neurons against the volumes: neurons straddling the surface, entirely inside and entirely outside
+    for (kind, desc, e), r in zip(follow, out):
+        if not e.get('do_prune'):
+            continue
+        truth = np.array([bool(v) for v in r])
+        prune(ctx, navis, rng, e['vol'], e['world'], dict(desc, placement='straddling'))
+        if truth.sum() >= 3:
+            prune(ctx, navis, rng, e['vol'], e['world'][truth], dict(desc, placement='all-inside'))
+        if (~truth).sum() >= 3:
+            prune(ctx, navis, rng, e['vol'], e['world'][~truth], dict(desc, placement='all-outside'))
     several(ctx, navis, rng)
     snap(ctx, navis, rng)
 
@@ -149,8 +157,8 @@ def prune(ctx, navis, rng, vol, world, desc):
         st1, a = guarded(navis.in_volume, x, vol, mode='IN', inplace=False)
         st2, b = guarded(navis.in_volume, x, vol, mode='OUT', inplace=False)
         d = dict(desc, neuron=name)
-        ctx.case(('prune', name, str(desc['offset']), str(f['ids'])), nontrivial=True)
-        ctx.count('prune:' + name)
+        ctx.case(('prune', name, desc.get('placement'), str(desc['offset']), str(f['ids'])), nontrivial=True)
+        ctx.count('prune:' + name + ':' + str(desc.get('placement')))
         if st1 != 'ok' or st2 != 'ok':
             ctx.violation('in_volume(neuron) raised', d, a if st1 != 'ok' else b)
             continue
